@@ -3,7 +3,7 @@
 Vocabulary: a *switched* report site has a Continue edge and a Break edge; a *collapsed*
 site hands its answer to take_cf_content and must return.  G' is the CFG without Break
 edges (what a keep-going error type can execute)."""
-from analysis import View, erase_generics, term_mentions
+from analysis import View, erase_generics, term_mentions, strip_refs
 from sites import BodySites, npath
 from lin import Finding
 
@@ -716,16 +716,35 @@ def acc_keep(view, bs, rule):
                 inner = lf
                 if inner[0] == "agg" and inner[1] == "adt" and inner[4] == "Some" and inner[2]:
                     inner = inner[2][0]
-                    for sub in leaves(inner, 1, frozenset([acc])):
+                    subs = []
+                    for sub0 in leaves(inner, 1, frozenset([acc])):
+                        # (through a helper's `Ok(e)` taken apart by `?`, a re-wrapped answer, ..: every alternative counts)
+                        subs.extend([strip_refs(a) for a in view.alts(sub0)] or [sub0])
+                    for sub in subs:
                         ok = False
+                        undecided = False
                         if sub[0] == "field" and sub[2] in ("Continue", "Break") and isinstance(sub[1], tuple) and sub[1][0] == "call" and sub[1][1] in sites_by_bb:
                             s = sites_by_bb[sub[1][1]]
                             ok = s.acc == acc or sub[2] == "Break"
                             # (a Break payload stored into the accumulator is C03's business, not a loss)
                             if not ok and rule == "C02.KEEP":
                                 ok = True   # reported by C02.ACC with a better message
+                            if not ok and s.acc is None and not s.self_none:
+                                # the site was handed something this rule did not trace back to the accumulator (moved through a
+                                # helper's parameter): neither kept nor lost was read
+                                al_self = [strip_refs(a) for a in view.alts(s.self_term)] if s.self_term is not None else []
+                                if al_self and all(a == ("multi", acc) or (a[0] == "call" and view.callee(a[1]) is not None and view.callee(a[1]).name == "take") for a in al_self):
+                                    ok = True
+                                else:
+                                    undecided = True
+                        elif sub[0] != "agg" and not (sub[0] == "field" and sub[2] in ("Continue", "Break")):
+                            undecided = True     # a value whose origin was not read
                         if not ok:
-                            out.append(finding(rule, view, "the accumulated error is replaced by a value that does not contain it: earlier reports are forgotten", bb, _short(sub)))
+                            f_ = finding(rule, view, "the accumulated error is replaced by a value that does not contain it: earlier reports are forgotten", bb, _short(sub))
+                            if undecided:
+                                f_.what = "the accumulated error is replaced by a value whose origin was not read: not recognised (undecided)"
+                                f_.undecided = True
+                            out.append(f_)
                     continue
                 if inner[0] == "agg" and inner[1] == "adt" and inner[4] == "None":
                     out.append(finding(rule, view, "the accumulated error is reset to None after examination has begun: earlier reports are forgotten", bb))
